@@ -7,3 +7,7 @@ open Biogo.Properties.C10
 #print axioms freq_spec
 #print axioms positions_spec
 #print axioms absent_spec
+#print axioms format_kmerOf
+#print axioms kmerOf_format
+#print axioms kmerOf_rejects
+#print axioms gc_spec
